@@ -28,12 +28,11 @@ EXTENDS Naturals, Sequences, FiniteSets, TLC, Json, IOUtils
 Rec == ndJsonDeserialize(IOEnv.TRACE)
 N   == Len(Rec)
 
+CONSTANT Which   \* "C07" | "C09": which family of formulas this run decides (set in the .cfg)
+
 VARIABLE l
 
 IsReset(n) == Rec[n].e = "Reset"
-Init == l \in {n \in 1..N : IsReset(n)}
-Next == l < N /\ ~IsReset(l + 1) /\ l' = l + 1
-Spec == Init /\ [][Next]_l
 
 Cur     == Rec[l]
 IsObs   == ~IsReset(l)
@@ -111,6 +110,18 @@ C09_OthersServed ==
      /\ (q.hstart # 0 => q.complete)
      /\ ((~Cur.sigFired /\ Cur.srv = "running" /\ cn.client = "open" /\ q.sent = 4) => q.complete)
 
-\* the whole trace was looked at
+-----------------------------------------------------------------------------
+AllC07 == /\ C07_NoAcceptAfterSignal /\ C07_NoServiceAfterSignal /\ C07_ReturnsOk /\ C07_InflightCompletes
+          /\ C07_ToldAtMostOnce /\ C07_OpenToldAndClosed /\ C07_DriversEnd
+AllC09 == /\ C09_SrvStable /\ C09_EndsOnlyOnAllowed /\ C09_ProbeServed /\ C09_Isolation /\ C09_OthersServed
+Holds  == IF Which = "C07" THEN AllC07 ELSE AllC09
+
+\* every schedule is its own initial state; a schedule is followed up to and including its first observation
+\* that falsifies a formula (what comes after is a consequence of it, reported once)
+Init == l \in {n \in 1..N : IsReset(n)}
+Next == l < N /\ ~IsReset(l + 1) /\ Holds /\ l' = l + 1
+Spec == Init /\ [][Next]_l
+
+\* the whole trace was looked at (when nothing was falsified)
 Consumed == TLCGet("distinct") = N
 =============================================================================
